@@ -241,7 +241,7 @@ func (c *Ctx) explicitAborts(fn *funcInfo) []abortSite {
 // uncheckedAsserts: single-value type assertions not protected by a
 // successful comma-ok assertion / type switch of the same expression.
 func (c *Ctx) uncheckedAsserts(fn *funcInfo) []abortSite {
-	_ = fn.Pkg.Info
+	info := fn.Pkg.Info
 	var out []abortSite
 	// positions of comma-ok forms and type switches
 	okForms := map[*ast.TypeAssertExpr]bool{}
@@ -287,13 +287,146 @@ func (c *Ctx) uncheckedAsserts(fn *funcInfo) []abortSite {
 			return true
 		}
 		key := types.ExprString(ta.X) + "|" + types.ExprString(ta.Type)
-		if checked[key] {
-			return true // the same assertion is tested with comma-ok / a type switch in this function
+		if checkedAt(fn, info, key, ta) {
+			return true // the same assertion is tested with comma-ok / a type switch that protects this use
 		}
 		out = append(out, abortSite{fn, "assert", "unchecked type assertion " + types.ExprString(ta), ta.Pos()})
 		return true
 	})
 	return out
+}
+
+// checkedAt: an assertion "expr|type" is protected at `use` when the use lies
+// inside (a) a type-switch arm for that type on the same expression, (b) the
+// body of an `if v, ok := expr.(T); ok` / `if ok` statement following a
+// comma-ok on the same expression, or (c) after a comma-ok whose failure branch
+// leaves the function (`if !ok { return ... }`) in an enclosing statement list.
+func checkedAt(fn *funcInfo, info *types.Info, key string, use *ast.TypeAssertExpr) bool {
+	protected := false
+	var lists [][]ast.Stmt
+	var walk func(n ast.Node)
+	inside := func(n ast.Node) bool { return n != nil && n.Pos() <= use.Pos() && use.End() <= n.End() }
+	commaOK := func(st ast.Stmt) (okObj types.Object, matches bool) {
+		as, ok := st.(*ast.AssignStmt)
+		if !ok || len(as.Lhs) != 2 || len(as.Rhs) != 1 {
+			return nil, false
+		}
+		ta, ok := ast.Unparen(as.Rhs[0]).(*ast.TypeAssertExpr)
+		if !ok || ta.Type == nil || types.ExprString(ta.X)+"|"+types.ExprString(ta.Type) != key {
+			return nil, false
+		}
+		if id, ok := as.Lhs[1].(*ast.Ident); ok {
+			if o := info.Defs[id]; o != nil {
+				return o, true
+			}
+			return info.Uses[id], true
+		}
+		return nil, true
+	}
+	var condIs func(cond ast.Expr, okObj types.Object, negated bool) bool
+	condIs = func(cond ast.Expr, okObj types.Object, negated bool) bool {
+		c := ast.Unparen(cond)
+		if negated {
+			// !ok   /   !ok || ...   (the failure branch)
+			if be, ok := c.(*ast.BinaryExpr); ok && be.Op == token.LOR {
+				return condIs(be.X, okObj, true) || condIs(be.Y, okObj, true)
+			}
+			u, ok := c.(*ast.UnaryExpr)
+			if !ok || u.Op != token.NOT {
+				return false
+			}
+			id, ok := ast.Unparen(u.X).(*ast.Ident)
+			return ok && okObj != nil && info.Uses[id] == okObj
+		}
+		// ok as any conjunct of the condition
+		if be, ok := c.(*ast.BinaryExpr); ok && be.Op == token.LAND {
+			return condIs(be.X, okObj, false) || condIs(be.Y, okObj, false)
+		}
+		id, ok := c.(*ast.Ident)
+		return ok && okObj != nil && info.Uses[id] == okObj
+	}
+	leaves := func(b *ast.BlockStmt) bool {
+		if n := len(b.List); n > 0 {
+			switch b.List[n-1].(type) {
+			case *ast.ReturnStmt, *ast.BranchStmt:
+				return true
+			}
+		}
+		return false
+	}
+	walk = func(n ast.Node) {
+		if n == nil || protected || !inside(n) {
+			return
+		}
+		switch x := n.(type) {
+		case *ast.TypeSwitchStmt:
+			tag, _ := typeSwitchParts(x)
+			if tag != nil {
+				for _, cl := range x.Body.List {
+					cc := cl.(*ast.CaseClause)
+					if !inside(cc) || len(cc.List) != 1 {
+						continue
+					}
+					if types.ExprString(tag)+"|"+types.ExprString(cc.List[0]) == key {
+						protected = true
+					}
+				}
+			}
+		case *ast.IfStmt:
+			if x.Init != nil {
+				if okObj, m := commaOK(x.Init); m && inside(x.Body) && condIs(x.Cond, okObj, false) {
+					protected = true
+				}
+			}
+		}
+		var list []ast.Stmt
+		switch x := n.(type) {
+		case *ast.BlockStmt:
+			list = x.List
+		case *ast.CaseClause:
+			list = x.Body
+		}
+		if list != nil {
+			lists = append(lists, list)
+			// statements before the one containing the use
+			for i, st := range list {
+				if inside(st) {
+					for _, prev := range list[:i] {
+						// if _, ok := e.(T); !ok { continue / return }
+						if ifs, isIf := prev.(*ast.IfStmt); isIf && ifs.Init != nil {
+							if okObj, m := commaOK(ifs.Init); m && condIs(ifs.Cond, okObj, true) && leaves(ifs.Body) {
+								protected = true
+							}
+						}
+						if okObj, m := commaOK(prev); m {
+							// any enclosing if on the way to the use that has ok as a conjunct
+							ast.Inspect(st, func(e ast.Node) bool {
+								if ifs, ok := e.(*ast.IfStmt); ok && inside(ifs.Body) && condIs(ifs.Cond, okObj, false) {
+									protected = true
+								}
+								return !protected
+							})
+							// find the guard / accept-if that follows
+							for _, nx := range list[:i+1] {
+								if ifs, ok := nx.(*ast.IfStmt); ok && nx.Pos() > prev.Pos() {
+									if condIs(ifs.Cond, okObj, true) && leaves(ifs.Body) && ifs.End() <= use.Pos() {
+										protected = true
+									}
+									if condIs(ifs.Cond, okObj, false) && inside(ifs.Body) {
+										protected = true
+									}
+								}
+							}
+						}
+					}
+					break
+				}
+			}
+		}
+		children(n, walk)
+	}
+	walk(fn.Decl.Body)
+	return protected
 }
 
 // unguardedIntDiv: integer / and % whose divisor is neither a non-zero
@@ -409,6 +542,33 @@ func (c *Ctx) runPanicfree(r *Report, pkg func(string) bool, reach map[*types.Fu
 			emit("abort.intdiv", s)
 		}
 	}
+	// totals inspected (for the evidence): single-value assertions and non-constant integer divisions
+	totAssert, totDiv := 0, 0
+	for _, fn := range c.allFuncs() {
+		if pkg != nil && !pkg(fn.Pkg.Rel) {
+			continue
+		}
+		info := fn.Pkg.Info
+		ast.Inspect(fn.Decl.Body, func(n ast.Node) bool {
+			switch x := n.(type) {
+			case *ast.TypeAssertExpr:
+				if x.Type != nil {
+					totAssert++
+				}
+			case *ast.BinaryExpr:
+				if x.Op == token.QUO || x.Op == token.REM {
+					if tv, ok := info.Types[x.Y]; ok && tv.Value == nil && tv.Type != nil {
+						if b, ok := types.Unalias(tv.Type).Underlying().(*types.Basic); ok && b.Info()&types.IsInteger != 0 {
+							totDiv++
+						}
+					}
+				}
+			}
+			return true
+		})
+	}
+	r.Extra["abort.type_assertions_inspected"] = totAssert
+	r.Extra["abort.integer_divisions_inspected"] = totDiv
 	r.inst("abort.functions", nf)
 	r.ok("abort.inventory", "functions-scanned", "", fmt.Sprintf("%d functions scanned for explicit aborts, unchecked assertions, unguarded integer division and off-by-one bounds guards", nf))
 	for k, v := range counts {
